@@ -25,4 +25,14 @@ def jobs():
         js.append(Job("B1-history@k%d" % k, "C15/c15.c", "c15_b1_history", UNITS, extra_src=EXTRA, unwind=10,
                       defines=["KDEL=%d" % k], tier="quick" if k <= 3 else "thorough", group="B1-history", timeout=1200,
                       desc="all histories of %d deliveries (fresh/replay/forgery, any gap)" % k, bounds={"k": k}))
+    # sender side: inductive invariant "stable storage is ahead of every partial IV used"
+    su = ["coap_oscore.c", "oscore/oscore.c", "oscore/oscore_cose.c", "oscore/oscore_context.c", "coap_pdu.c", "coap_option.c", "coap_encode.c", "coap_str.c"]
+    for f in (0, 1, 2, 3, 7, 10, 16, 100, 1000):
+        js.append(Job("S2-derive@freq%d" % f, "C15/c15s.c", "c15_s2_derive", su, extra_src=EXTRA, defines=["FREQ=%d" % f], unwind=4, unwindset={"cose_get_alg_name.0": 40, "cose_get_hkdf_alg_name.0": 40},
+                      remove_bodies=["__CPROVER_file_local_oscore_context_c_oscore_log_context"], group="S2-derive", timeout=900,
+                      desc="oscore_derive_ctx with ssn_freq %d and every start_seq_num: next_seq <= start" % f, bounds={"ssn_freq": f, "start_seq_num": "< 2^40"}))
+    js.append(Job("S2-step", "C15/c15s.c", "c15_s2_step", su, extra_src=EXTRA, unwind=16, defines=["ENV_MEMCPY_BYTELOOP"], unwindset={"memcpy.0": 20},
+                  remove_bodies=["__CPROVER_file_local_oscore_context_c_oscore_log_context", "oscore_encode_option_value"],
+                  timeout=900, est_gb=3, desc="one protected request from every sender state satisfying the invariant, cut after the sequence-number bookkeeping",
+                  bounds={"seq": "< 2^40", "ssn_freq": "1..2^20"}))
     return js
